@@ -122,6 +122,76 @@ def _reporting_modules(ctx):
   return ctx.memo(("c04r5-reporting-modules",), build)
 
 
+def _names_read(node):
+  return {n.id for n in ast.walk(node)
+          if isinstance(n, ast.Name) and isinstance(n.ctx, ast.Load)}
+
+
+def _existence_body(body, assigned, carried, guard=None):
+  """The statements only (a) return a constant / continue / break, (b) bind
+  locals that are fresh in every iteration, (c) fill a memo `C[k] = v` under
+  the guard `k not in C`: the loop computes any(P(x)) - no state is carried
+  from one element to the next, so the order of the walk cannot show."""
+  for st in body:
+    if isinstance(st, (ast.Pass, ast.Continue, ast.Break)):
+      continue
+    if isinstance(st, ast.Return):
+      if st.value is None or isinstance(st.value, ast.Constant):
+        continue
+      return False
+    if isinstance(st, ast.Expr) and isinstance(st.value, ast.Constant):
+      continue
+    if isinstance(st, ast.Assign) and all(isinstance(t, ast.Name) for t in st.targets):
+      if _names_read(st.value) & (carried - assigned):
+        return False
+      assigned |= {t.id for t in st.targets}
+      continue
+    if isinstance(st, ast.Assign) and len(st.targets) == 1 and \
+        isinstance(st.targets[0], ast.Subscript) and \
+        isinstance(st.targets[0].value, ast.Name) and guard is not None and \
+        guard == (ast.unparse(st.targets[0].slice), st.targets[0].value.id) and \
+        not (_names_read(st) & (carried - assigned)):
+      continue
+    if isinstance(st, ast.If):
+      if _names_read(st.test) & (carried - assigned):
+        return False
+      g = None
+      t = st.test
+      if isinstance(t, ast.Compare) and len(t.ops) == 1 and isinstance(t.ops[0], ast.NotIn) \
+          and isinstance(t.comparators[0], ast.Name):
+        g = (ast.unparse(t.left), t.comparators[0].id)
+      a1, a2 = set(assigned), set(assigned)
+      if not _existence_body(st.body, a1, carried, g) or \
+          not _existence_body(st.orelse, a2, carried, None):
+        return False
+      assigned |= a1 & a2
+      continue
+    return False
+  return True
+
+
+def _existence_loops(ctx, rel):
+  """Marks the `for` sites of the module whose body is an existence test in the
+  sense of _existence_body as order-insensitive (shared with R4.6w)."""
+  sites, _ = _c04._scan_module_full(ctx, rel)
+  todo = [s_ for s_ in sites if s_["kind"] == "for" and not s_["auto"]]
+  if not todo:
+    return
+  mod = get_module(ctx, rel)
+  loops = [n for n in ast.walk(mod.tree) if isinstance(n, (ast.For, ast.AsyncFor))]
+  for site in todo:
+    hits = [n for n in loops if n.lineno == site["line"] and src(n.iter) == site["expr"]]
+    if len(hits) != 1:
+      continue
+    loop = hits[0]
+    carried = {n.id for st in loop.body for n in ast.walk(st)
+               if isinstance(n, ast.Name) and isinstance(n.ctx, ast.Store)}
+    target = {n.id for n in ast.walk(loop.target) if isinstance(n, ast.Name)}
+    if not loop.orelse and _existence_body(loop.body, set(target), carried | target):
+      site["auto"] = ("existence test: constant returns, per-iteration locals "
+                      "and a keyed memo only")
+
+
 @rule("R4.50", "C04", floor=52)
 def r4_50(ctx):
   """Every module that calls a reporting method of the error log walks no definite set in an order-observing way (R4.6's obligation at the quick tier, scope computed from errors.py)."""
@@ -129,6 +199,8 @@ def r4_50(ctx):
   for rel, n in sorted(mods.items()):
     ctx.ok(f"{rel.removeprefix('pytype/')}|reports-errors", rel, 0,
            {"reporting_calls": n})
+  for rel in sorted(mods):
+    _existence_loops(ctx, rel)
   _c04._run_set_rule(ctx, sorted(mods), _c04._SAFE_WHOLE_PACKAGE)
 
 
